@@ -58,6 +58,16 @@ def run(ctx):
     one = {"B": '{"b1"}', "T": '{"f", "g"}', "CB": '{"c1"}', "RS": "<- RS_1", "A": "{0}", "Ops": "<- ImageOps"}
     behs = life.gen(ctx, one, 2 if q else 3, "image alphabet for real patches")
     life.replay(ctx, "life", behs)
+    # the patch layer itself (internal/patch: Patch / Guard.Apply / Unpatch / Restore / Unpatch(target) / UnpatchAll), spec Patch.tla
+    from lib.replay import replay_family
+    for disc in ("FALSE", "TRUE"):
+        r = ctx.tlc("MC_Patch", "MC_Patch.cfg", workers=8, timeout=900, constants={"Disciplined": disc, "MaxOps": 7 if q else 9},
+                    tag="patch layer, Disciplined=%s" % disc)
+        ctx.note("MC_Patch Disciplined=%s: %d distinct states; CapPristine EntryValid Tracked AllRestores hold" % (disc, r["distinct"]))
+    pb = ctx.behaviours(ctx.tlc("MC_Patch", "Gen_Patch.cfg", workers=1, timeout=900, constants={"MaxOps": 4 if q else 5}, tag="all histories of the patch layer"))
+    pb += ctx.behaviours(ctx.tlc("MC_Patch", "Sim_Patch.cfg", workers=1, timeout=900, simulate="num=%d" % (300 if q else 5000), depth=17,
+                                 tag="random histories of the patch layer, 3 targets"))
+    replay_family(ctx, "patchapi", pb)
     ctx.cov["rule"] = ("WriteTo at every offset in the last 40..56 bytes before and 4 after each inner page boundary x lengths 1..48 on "
                        "a scratch r-x mapping and inside .text (padding function), protections read from /proc/self/maps at every hook "
                        "point inside the critical section and 3-page before/after diff; every function of the binary judged as a target "
